@@ -134,3 +134,41 @@ func VP_C10_Complete_L3_s1()      { vpC10Complete(3, 1) }
 func VP_C10_Complete_L5_s2()      { vpC10Complete(5, 2) }
 func VP_C10_Complete_L6_s4()      { vpC10Complete(6, 4) }
 func VP_C10_Complete_L6_s1()      { vpC10Complete(6, 1) }
+
+// A proposer may cut the block bytes wherever it likes (the header commits to the Merkle root over the
+// pieces and to their number only): L symbolic bytes are cut into n pieces at symbolic cut points, so
+// pieces of length zero occur in every position; the pieces arrive through the wire format in a rotated
+// order.  The completed set reassembles to exactly the original bytes.
+func vpC10ArbitraryCuts(L int, n int) {
+	data := vp.Bytes("data", L)
+	cuts := make([]int, n+1)
+	cuts[n] = L
+	for i := 1; i < n; i++ {
+		cuts[i] = vp.Range("cut", cuts[i-1], L)
+	}
+	pieces := make([][]byte, n)
+	for i := range pieces {
+		pieces[i] = data[cuts[i]:cuts[i+1]]
+	}
+	root, proofs := merkle.ProofsFromByteSlices(pieces)
+	dst := NewPartSetFromHeader(PartSetHeader{Total: uint32(n), Hash: root})
+	rot := vp.Range("rot", 0, n-1)
+	for k := 0; k < n; k++ {
+		i := (k + rot) % n
+		pb, err := (&Part{Index: uint32(i), Bytes: pieces[i], Proof: *proofs[i]}).ToProto()
+		if err != nil {
+			panic(err)
+		}
+		p, err := PartFromProto(pb)
+		vp.Assert(err == nil, "C10.partset.a-piece-of-any-length-with-its-proof-decodes")
+		added, err := dst.AddPart(p)
+		vp.Assert(added && err == nil, "C10.partset.genuine-part-accepted")
+	}
+	vp.Assert(dst.IsComplete(), "C10.partset.complete-after-all-parts")
+	vp.Reach("complete")
+	got, err := io.ReadAll(dst.GetReader())
+	vp.Assert(err == nil && bytes.Equal(got, data), "C10.partset.reassembles-to-original(arbitrary-cuts,empty-pieces)")
+}
+
+func VP_C10_ArbitraryCuts_L3_n3() { vpC10ArbitraryCuts(3, 3) }
+func VP_C10_ArbitraryCuts_L4_n4() { vpC10ArbitraryCuts(4, 4) }
